@@ -236,11 +236,13 @@ var propRules = map[string]*PropSpec{
 		Technique:  techErr,
 	},
 	"C19": {
-		Rules:       []string{"PC1", "PC2", "B1", "P1", "A7", "U3", "A3.bsi", "A8", "P2", "A1.bsi", "F10.bsi"},
+		Rules:       []string{"PC1", "PC2", "B1", "P1", "A7", "U3", "A3.bsi", "A8", "P2", "A1.bsi", "F10.bsi", "ACC1"},
 		Explanation: explBase + " C19: every whole-index operation touches every plane including the sign plane; (un)marshal errors propagate; per-plane goroutines are joined.",
 		Decided: []string{
 			"planes of the 32-bit index are freshly built bitmaps, never a caller's bitmap (Add/addDigit, ParOr, UnmarshalBinary, NewBSIRetainSet)",
 			"Clone/NewBSIRetainSet, ClearValues, ParOr, RunOptimize, Equals, WriteTo/ReadFrom ... iterate over all len(bA) planes (sign plane included)", "SetValue/SetMany/SetBigValue/SetBigMany write (set or clear) every plane", "widening copies the old sign plane into every new plane up to the new top plane", "Marshal/Unmarshal/WriteTo/ReadFrom propagate errors", "per-plane goroutines are paired with a WaitGroup", "Clone/NewBSIRetainSet copy planes only from freshly cloned bitmaps (no shared headers)",
+			"the n-ary union (ParOr) of indexes of different widths: the receiver is sign-extended when it grows, a narrower operand contributes its sign plane to every higher plane, and the per-plane operand lists are only appended to (no operand's plane is dropped, whatever the argument order)",
+			"every exported method of the 64-bit index that appends planes to its own array is either checked for sign extension or exempt with a reason",
 			"ClearValues removes its found-set from the existence bitmap only after (and never concurrently with) its last other use of it, so the found-set may be GetExistenceBitmap() itself"},
 		NotDecided: []string{"two's-complement encode/decode", "ripple-carry addition", "how many planes a value needs"},
 		Technique:  "static analysis: loop-bound vs slice-length agreement over go/ssa; error-flow rules",
